@@ -340,4 +340,11 @@ def run(ctx):
     ctx.check(ok, "R12.5", f.short, "feasible-only-when-asked", message="feasibility filter is not under `if consider_constraint`", how="dominated by the True edge")
     norm_calls = [c for c in own_nodes(f.node) if isinstance(c, ast.Call) and dotted(c.func) == "_normalize_value"]
     ctx.check(len(norm_calls) >= 1, "R12.5", f.short, "values-normalised", message="objective values are not passed through _normalize_value", how="call present")
+    for name, attr in (("best_value", "value"), ("best_params", "params")):
+        f = st.methods.get(name)
+        ctx.require(f is not None, f"R12.5: Study.{name} vanished")
+        defs = single_defs(f.node)
+        rets = [n for n in own_nodes(f.node) if isinstance(n, ast.Return) and n.value is not None]
+        ok = bool(rets) and all(norm(resolve(r.value, defs)) == f"self.best_trial.{attr}" for r in rets)
+        ctx.check(ok, "R12.5", f.short, f"derived-from-best_trial:{attr}", message=f"Study.{name} is not self.best_trial.{attr}", how="single source of truth")
     ctx.note("sibling_rows", rows)
